@@ -51,6 +51,11 @@ def check_line(line, dlm, policy, via_iterator=True):
             raise Violation('preserve-unquote', dict(ctx, preserved=pres, expected=rf))
         if fl and csv_utils.unquote_field(p) != f:
             raise Violation('unquote_field', dict(ctx, preserved=p, expected=f))
+    # splitting is a pure function of (line, delimiter, policy): the same call again gives the same answer
+    again, againw = csv_utils.smart_split(line, dlm, policy, False)
+    pagain, pagainw = csv_utils.smart_split(line, dlm, policy, True)
+    if again != got or bool(againw) != bool(gw) or pagain != pres or bool(pagainw) != bool(pw):
+        raise Violation('second-call-differs', dict(ctx, first=[got, gw, pres, pw], second=[again, againw, pagain, pagainw]))
     if via_iterator and line != '':
         it_check(line, dlm, policy, rf, rw)
 
@@ -141,6 +146,30 @@ def shard_enum(shard, nshards, tier, seed, scratch):
                             seen_clauses.add(key)
                             failures.append({'leg': 'enum-newline', 'clause': v.clause, 'detail': v.detail, 'case': {'kind': 'line-direct', 'line': line, 'delim': d, 'policy': policy}})
         stats.bump('enumerated-with-line-breaks-delim-' + repr(d))
+    # long lines (beyond any length threshold of a fast path / cache): every short core embedded in a line of > 64 characters,
+    # at the start, at the end and followed by a final delimiter
+    pad = 'x' * 33
+    for d in SINGLE[:2] + [' ', '::', ', ']:
+        alphabet = (['"', d, ' ', 'x'] if d != ' ' else ['"', ' ', 'x'])
+        for n in range(1, 5):
+            for tup in itertools.product(alphabet, repeat=n):
+                counter += 1
+                if counter % nshards != shard:
+                    continue
+                core = ''.join(tup)
+                for line in (pad + d + core + d + pad, core + d + pad + d + pad + d, pad + d + pad + d + core, core + d + pad + pad):
+                    for policy in ('quoted', 'quoted_rfc'):
+                        stats.evaluations += 1
+                        if '"' in core:
+                            stats.nontrivial_counted += 1
+                        try:
+                            check_line(line, d, policy, via_iterator=True)
+                        except Violation as v:
+                            key = (policy, 'long', v.clause)
+                            if key not in seen_clauses:
+                                seen_clauses.add(key)
+                                failures.append({'leg': 'enum-long-lines', 'clause': v.clause, 'detail': v.detail, 'case': {'kind': 'line', 'line': line, 'delim': d, 'policy': policy}})
+        stats.bump('enumerated-long-lines-delim-' + repr(d))
     # particular "other" characters at the first / last position of the line (BOM, no-break and exotic spaces, control characters, the
     # other quote, backslash, comment sign): for the splitter they are ordinary characters
     SPECIAL_OTHERS = ['\ufeff', '\xa0', '\t', '\x0b', '\x0c', '\u2003', '\u3000', '\x00', '\x1f', '\x85', '\\', "'", '#', '\xef\xbb\xbf', '\U0001d11e']
